@@ -159,6 +159,13 @@ def candidate_values(rng, spec) -> List[Any]:
                 if nb is not None:
                     base[idx] = nb
                     out.append(("above_max" if up else "below_min", base))
+    # the same in-bounds value held in a 64-bit NumPy array (NumPy's default widths): validate looks at the value "once converted to a JAX
+    # array" (float64 -> float32, int64 -> int32, uint64 -> uint32 with x64 off), so it is a member exactly when THAT dtype is the declared one
+    wide = {"f": np.float64, "i": np.int64, "u": np.uint64}.get(np.dtype(dt).kind)
+    if wide is not None:
+        base64 = np.asarray(out[2][1] if b is not None else out[0][1])
+        if np.all(np.isfinite(base64.astype(np.float64))):
+            out.append(("np64", base64.astype(wide)))
     # wrong shape / wrong dtype
     good = out[0][1]
     out.append(("wrong_shape", np.zeros(shape + (1,), dt)))
@@ -407,6 +414,8 @@ def run(ctx: Ctx, extended: bool = False) -> None:
                 ctx.nontrivial.add((repr(spec), label))
                 case = {**case0, "label": label, "value": np.asarray(v).tolist(), "validate_accepts": got, "model_valid": m}
                 expect = label in ("any", "at_min", "at_max", "inside")
+                if label == "np64":
+                    expect = str(np.asarray(jnp.asarray(v)).dtype) == str(np.dtype(spec.dtype))
                 if got != expect:
                     ctx.fail("specs", "valid_iff", f"validate {'accepts' if got else 'rejects'} a value that is {label}", case, {"label": label})
                 elif got != m:
@@ -595,6 +604,48 @@ def run(ctx: Ctx, extended: bool = False) -> None:
             ctx.count("ctor_accepted_wf" if mc["wf"] else "ctor_accepted_wrapped_count")
         else:
             ctx.count("ctor_raises")
+    # nested specs whose containers are DATACLASSES (two levels): validate unpacks a dataclass value field by field, one level at a time
+    import dataclasses
+
+    @dataclasses.dataclass
+    class DC2:
+        p: Any
+        q: Any
+
+    @dataclasses.dataclass
+    class DC3:
+        x: Any
+        y: Any
+        z: Any
+
+    for it in range(max(4, n // 8)):
+        kids = [gen_leaf(rng) for _ in range(4)]
+        mixed = it % 2 == 1   # a namedtuple holding a dataclass, and the other way round
+        inner = specs.Spec(DC2, "Inner", p=kids[0], q=kids[1])
+        outer = specs.Spec(NT3 if mixed else DC3, "Outer", x=kids[2], y=inner, z=kids[3])
+        ctx.evaluations += 1
+        ctx.count("nested_dataclass_specs")
+        g = outer.generate_value()
+        try:
+            outer.validate(g)
+        except Exception as e:  # noqa: BLE001
+            ctx.fail("specs", "nested_generate_valid", f"nested validate rejects generate_value() of a spec with dataclass containers: {type(e).__name__}: {e}",
+                     {"spec": repr(outer)[:300], "containers": "namedtuple(dataclass)" if mixed else "dataclass(dataclass)"}, {"containers": "dataclass"})
+            continue
+        try:
+            jn, jv = speclib.nested_json(outer), speclib.nvalue_json(outer, g)
+            if drv.call("spec.nested_valid", spec=jn, value=jv) is not True:
+                ctx.disagree("specs", "model nested valid rejects generate_value() (dataclass containers)", {"spec": repr(outer)[:300]})
+        except TypeError:
+            pass
+        bad_leaf = candidate_values(rng, kids[0])[-2][1]  # wrong shape
+        gy = dataclasses.replace(g.y, p=jnp.asarray(bad_leaf))
+        gbad = g._replace(y=gy) if mixed else dataclasses.replace(g, y=gy)
+        try:
+            outer.validate(gbad)
+            ctx.fail("specs", "nested_valid_iff", "nested validate accepts a value with a wrong-shaped leaf (dataclass containers)", {"spec": repr(outer)[:300]})
+        except Exception:  # noqa: BLE001
+            pass
     # nested specs
     for it in range(n // 3):
         try:
